@@ -41,6 +41,8 @@ def contracts():
                            3: dict(vars=[('recur', 'ref')], ref_vars=[('recur', 'ref')])}))
     from contracts import X_ctor
     cs += common.shared(X_ctor, ['core._is_spec', 'core.Auto.__init__', 'core.Fill.__init__', 'grouping.Group.__init__', 'matching.Match.__init__'])
+    from contracts import C03
+    cs += common.shared(C03, ['core.Coalesce.glomit', 'core._handle_tuple', 'core._has_callable_glomit', 'core.Call.glomit'])
     return cs
 
 
